@@ -56,6 +56,23 @@ Definition run_cli (cmd : text) (args : list bytes) : option text :=
       else if mode =? 4 then Some (mode_selected_list d c (src_names d c (Some extra) None content names) content)
       else Some (mode_selected_list d c (src_names d c None (Some extra) content names) content) in
     Some (render (match out with Some o => render_stdout o | None => JObj [(L "exit", JStr (L "Invalid length of ID is provided!"))] end))
+  else if is_cmd cmd (L "cli_o") then
+    (* count / list / all on a directory some of whose entries cannot be opened.
+       args: mode (0 count, 1 list, 2 all), flags, selection byte, severity digits, extension, then name / readable-flag / content triples *)
+    let mode := be_val (arg 0 args) 0 in
+    let fl := be_val (arg 1 args) 0 in
+    let s := sel_of (arg 2 args) (arg 3 args) in
+    let ext := match targ (arg 4 args) with [] => None | t => Some t end in
+    let fix triples (l : list bytes) : list (text * option bytes) :=
+      match l with n :: r :: c :: t => (targ n, if be_val r 0 =? 0 then None else Some c) :: triples t | _ => [] end in
+    let files := triples (skipn 5 args) in
+    let oc n := match List.find (fun p => text_eqb (fst p) n) files with Some p => snd p | None => None end in
+    let c := {| c_ext := ext; c_rev := N.testbit fl 0; c_hex := N.testbit fl 1 |} in
+    let d := decoders_of env0 {| allow_plugins := N.testbit fl 2 |} s in
+    let names := map fst files in
+    Some (render (render_stdout (if mode =? 0 then mode_count_o d c oc names
+                                 else if mode =? 1 then mode_list_o d c oc names
+                                 else mode_all_o d c oc names)))
   else if is_cmd cmd (L "clean_trace") then
     (* args: path (0 json, 1 file), decode outcome (0 ok, 1 filtered, 2 reject), clean flag, fault bits (OpenOut Write Close Print Flush Remove) *)
     let d := let v := be_val (arg 1 args) 0 in if v =? 0 then DOk else if v =? 1 then DFiltered else DReject in
